@@ -6,6 +6,7 @@ import json
 import os
 import sys
 
+from . import common
 from .common import coq_Z, coq_bool, coq_list, coq_nat, coq_opt, parse_eval_lists, shards
 
 TPS = 64                      # ticks per second (dyadic: all float clock arithmetic is exact)
@@ -290,35 +291,36 @@ def run_impl(case, tag="x"):
         del log[:]
         err = None
         try:
-            if op[0] == "engage":
-                kw = {}
-                if op[1] is not None:
-                    # a state may be named or given as the state object itself
-                    kw["initial_state"] = getattr(type(m), sname(op[1])) if case.get("objrefs") else sname(op[1])
-                if op[2]:
-                    kw["force"] = True
-                m.engage(**kw)
-            elif op[0] == "done":
-                m.done()
-            elif op[0] == "ondisable":
-                m.on_disable()
-            elif op[0] == "execute":
-                clock.t = op[1]
-                m.execute()
-            elif op[0] == "setdur":
-                key = "/components/%s/state/%s_duration" % (cname, sname(op[1]))
-                pub = nt.getDoubleTopic(key).publish()
-                pub.set(op[2] / TPS)
-                _pubs.append(pub)
-                if len(_pubs) > 4000:
-                    del _pubs[:2000]
-            elif op[0] == "aenable":
-                m.on_enable()
-            elif op[0] == "aiter":
-                clock.t = op[1]
-                m.on_iteration(op[1] / TPS)
-            elif op[0] == "adisable":
-                m.on_disable()
+          with common.time_limit(5):
+              if op[0] == "engage":
+                  kw = {}
+                  if op[1] is not None:
+                      # a state may be named or given as the state object itself
+                      kw["initial_state"] = getattr(type(m), sname(op[1])) if case.get("objrefs") else sname(op[1])
+                  if op[2]:
+                      kw["force"] = True
+                  m.engage(**kw)
+              elif op[0] == "done":
+                  m.done()
+              elif op[0] == "ondisable":
+                  m.on_disable()
+              elif op[0] == "execute":
+                  clock.t = op[1]
+                  m.execute()
+              elif op[0] == "setdur":
+                  key = "/components/%s/state/%s_duration" % (cname, sname(op[1]))
+                  pub = nt.getDoubleTopic(key).publish()
+                  pub.set(op[2] / TPS)
+                  _pubs.append(pub)
+                  if len(_pubs) > 4000:
+                      del _pubs[:2000]
+              elif op[0] == "aenable":
+                  m.on_enable()
+              elif op[0] == "aiter":
+                  clock.t = op[1]
+                  m.on_iteration(op[1] / TPS)
+              elif op[0] == "adisable":
+                  m.on_disable()
         except Exception as e:      # noqa
             err = type(e).__name__
         evs = []
